@@ -164,6 +164,28 @@ func cmdCheck(args []string) {
 	})
 	{
 		rs := solveAll(allObls, *jobs, timeout, all)
+		// second chance: an obligation that ran into the time limit (machine load, solver
+		// heuristics) is retried with four times the budget on every solver before
+		// it is reported; `sat` answers are final
+		var retry []int
+		for i, r := range rs {
+			if !r.O.Cover && (r.R.Status == "timeout" || r.R.Status == "unknown") {
+				retry = append(retry, i)
+			}
+		}
+		if len(retry) > 0 && len(retry) <= 12 {
+			var ro []*Obligation
+			for _, i := range retry {
+				ro = append(ro, rs[i].O)
+			}
+			rr := solveAll(ro, 4, timeout*4, true)
+			for k, i := range retry {
+				if rr[k].R.Status == "unsat" || rr[k].R.Status == "sat" {
+					rr[k].R.TimeS += rs[i].R.TimeS
+					rs[i] = rr[k]
+				}
+			}
+		}
 		for i, r := range rs {
 			rep := oblReport{Name: r.O.Name, Func: r.O.Func, Beh: r.O.Beh, Kind: r.O.Kind, Pos: r.O.Pos, Status: r.R.Status, Solver: r.R.Solver, TimeS: r.R.TimeS}
 			solverTime += r.R.TimeS
